@@ -344,6 +344,7 @@ var _ backend.Storage = (*memdev.Dev)(nil)
 
 func Run(c *hx.Ctx) {
 	r := c.Rng
+	e4rng := r.Fork()
 	n := 0
 	type job struct {
 		id string
@@ -402,6 +403,12 @@ func Run(c *hx.Ctx) {
 	}
 	var wg sync.WaitGroup
 	sem := make(chan struct{}, 12)
+	// the ext4 write-log classification runs beside the matrix
+	wg.Add(1)
+	go func() {
+		defer wg.Done()
+		ext4Cls(c, e4rng)
+	}()
 	for _, j := range jobs {
 		wg.Add(1)
 		sem <- struct{}{}
